@@ -27,7 +27,13 @@ use serde::de::DeserializeOwned;
 use serde_json::Value;
 use serde_json::json;
 
-pub const VERIF_ROOT: &str = "/verif";
+/// Root of the verification tree (`/verif`; overridable with JJVERIF_ROOT for
+/// development copies only — registered commands never set it).
+pub fn verif_root() -> PathBuf {
+    std::env::var_os("JJVERIF_ROOT")
+        .map(PathBuf::from)
+        .unwrap_or_else(|| PathBuf::from("/verif"))
+}
 
 #[derive(Clone, Copy, Debug, PartialEq, Eq)]
 pub enum Tier {
@@ -159,7 +165,7 @@ pub struct KnownFinding {
 }
 
 pub fn load_known_findings() -> Vec<KnownFinding> {
-    let path = Path::new(VERIF_ROOT).join("known_findings.json");
+    let path = verif_root().join("known_findings.json");
     let Ok(text) = std::fs::read_to_string(&path) else {
         return vec![];
     };
@@ -376,7 +382,7 @@ impl Report {
             "case": case,
         });
         let h = hash_value(&json!([sub, case]));
-        let dir = Path::new(VERIF_ROOT).join("replays").join(self.id);
+        let dir = verif_root().join("replays").join(self.id);
         std::fs::create_dir_all(&dir).ok();
         let path = dir.join(format!("{h:016x}.json"));
         std::fs::write(&path, serde_json::to_string_pretty(&doc).unwrap()).ok();
@@ -788,7 +794,9 @@ impl Report {
             "violations": self.violations.len(),
         });
         if self.replay.is_none() {
-            let dir = Path::new(VERIF_ROOT).join("evidence");
+            let dir = std::env::var_os("VERIF_EVIDENCE_DIR")
+                .map(PathBuf::from)
+                .unwrap_or_else(|| verif_root().join("evidence"));
             std::fs::create_dir_all(&dir).ok();
             let path = dir.join(format!("{}.json", self.id));
             if let Err(err) = std::fs::write(&path, serde_json::to_string_pretty(&evidence).unwrap())
@@ -823,7 +831,7 @@ pub fn pick(raw: u16, len: usize) -> usize {
 pub fn scratch_root() -> PathBuf {
     let root = std::env::var_os("VERIF_SCRATCH")
         .map(PathBuf::from)
-        .unwrap_or_else(|| Path::new(VERIF_ROOT).join("scratch"));
+        .unwrap_or_else(|| verif_root().join("scratch"));
     std::fs::create_dir_all(&root).ok();
     root
 }
